@@ -737,3 +737,55 @@ def rt_shapes_grid(first_only=False, count=None, only=None):
     if count is not None:
         count.append(n)
     return fails
+
+
+# --------------------------------------------------------------------------------------
+# C13: wrong shapes are rejected by every method of real bijections
+def rt_argcheck_grid(first_only=False, count=None):
+    import flowjax.bijections as B
+
+    objs = [("Affine(3)", B.Affine(jnp.zeros(3))), ("Exp(())", B.Exp()), ("Tanh((2,3))", B.Tanh((2, 3))),
+            ("AdditiveCondition(shape (), cond ())", B.AdditiveCondition(lambda c: c, (), ())),
+            ("AdditiveCondition(shape (2,), cond (3,))", B.AdditiveCondition(lambda c: c.sum(), (2,), (3,))),
+            ("Chain[Affine(2), AdditiveCondition(cond ())]", B.Chain([B.Affine(jnp.zeros(2)), B.AdditiveCondition(lambda c: c, (2,), ())])),
+            ("Invert(AdditiveCondition(cond ()))", B.Invert(B.AdditiveCondition(lambda c: c, (), ()))),
+            ("Vmap(AdditiveCondition(cond (2,)), in_axes_condition=0)", B.Vmap(B.AdditiveCondition(lambda c: c.sum(), (), (2,)), axis_size=3, in_axes_condition=0)),
+            ("Reshape(Affine(4) -> (2,2))", B.Reshape(B.Affine(jnp.zeros(4)), (2, 2)))]
+    fails, n = [], 0
+
+    def wrongs(shape):
+        out = [(1,) + tuple(shape), tuple(shape) + (1,)]
+        if len(shape) >= 1:
+            out += [tuple(shape[1:]), tuple(shape[:-1]) + (shape[-1] + 1,), ()] if shape != () else []
+        if len(shape) == 2 and shape[0] != shape[1]:
+            out.append((shape[1], shape[0]))
+        return [w for w in dict.fromkeys(out) if w != tuple(shape)]
+
+    for name, b in objs:
+        good_c = None if b.cond_shape is None else jnp.ones(b.cond_shape)
+        good_x = jnp.full(b.shape, 0.3)
+        for meth in ("transform", "inverse", "transform_and_log_det", "inverse_and_log_det"):
+            f = getattr(b, meth)
+            n += 1
+            try:
+                out = f(good_x, good_c)
+                pt = out[0] if isinstance(out, tuple) else out
+                if pt.shape != tuple(b.shape) or (isinstance(out, tuple) and jnp.shape(out[1]) != ()):
+                    fails.append(dict(what=f"{name}.{meth}: returned shape {pt.shape} for declared {b.shape}", case=dict(obj=name, method=meth)))
+            except Exception as ex:  # noqa: BLE001
+                fails.append(dict(what=f"{name}.{meth} rejects inputs of its declared shapes: {type(ex).__name__}: {str(ex)[:120]}", case=dict(obj=name, method=meth)))
+            cases = [(jnp.full(w, 0.3), good_c, f"x.shape={w}") for w in wrongs(tuple(b.shape))]
+            if b.cond_shape is not None:
+                cases += [(good_x, jnp.ones(w), f"condition.shape={w}") for w in wrongs(tuple(b.cond_shape))] + [(good_x, None, "condition missing")]
+            for xx, cc, label in cases:
+                n += 1
+                try:
+                    f(xx, cc)
+                    fails.append(dict(what=f"{name}.{meth} accepted {label} (declared shape {b.shape}, cond_shape {b.cond_shape}) instead of raising", case=dict(obj=name, method=meth, bad=label)))
+                except Exception:  # noqa: BLE001
+                    pass
+            if first_only and fails:
+                return fails
+    if count is not None:
+        count.append(n)
+    return fails
